@@ -86,18 +86,19 @@ package opengraph
 //@   ensures [C14] #profile-name result == ite(!pp.isProfileType, "", ite(propertyTable["first_name"] != "" && propertyTable["last_name"] != "",
 //@              propertyTable["first_name"] + " " + propertyTable["last_name"], propertyTable["first_name"]))
 
-// profile:* properties are stored only when og:type is "profile" (looked up once, when the first such tag is parsed;
-// parseMetaTags stores og:type before any other tag)
+// profile:* properties are stored only when og:type is "profile". (Stated in the direction the property needs: the
+// parser never becomes a profile parser for another type; WHEN the type is looked up --
+// once, at the first profile tag -- is not part of the contract: parseMetaTags stores og:type before any other tag.)
 //@ func (*ProfilePropParser).Parse(property, content, propertyTable)
 //@   requires pp != nil
-//@   ensures [C14] #profile-properties-only-for-profile-type result == pp.isProfileType && pp.typeChecked &&
-//@              implies(!old(pp.typeChecked), pp.isProfileType == (strings.ToLower(propertyTable["type"]) == "profile")) && implies(old(pp.typeChecked), pp.isProfileType == old(pp.isProfileType))
+//@   ensures [C14] #profile-properties-only-for-profile-type result == pp.isProfileType &&
+//@              implies(pp.isProfileType && !old(pp.isProfileType), strings.ToLower(propertyTable["type"]) == "profile")
 
 // article:* properties are stored only when og:type is "article"; article:author values are collected in order
 //@ func (*ArticlePropParser).Parse(property, content, propertyTable)
 //@   requires pp != nil
-//@   ensures [C14] #article-properties-only-for-article-type pp.isArticleType == (old(pp.isArticleType) || strings.ToLower(propertyTable["type"]) == "article") &&
-//@              result == (pp.isArticleType && property != "author")
+//@   ensures [C14] #article-properties-only-for-article-type result == (pp.isArticleType && property != "author") &&
+//@              implies(pp.isArticleType && !old(pp.isArticleType), strings.ToLower(propertyTable["type"]) == "article")
 //@   ensures [C14] #article-authors-collected implies(pp.isArticleType && property == "author", len(pp.Authors) == old(len(pp.Authors)) + 1 && pp.Authors[len(pp.Authors)-1] == content) &&
 //@              implies(!(pp.isArticleType && property == "author"), pp.Authors == old(pp.Authors))
 
